@@ -161,6 +161,10 @@ def finish(rep: Report, level_text: str) -> int:
     for o in rep.observations:
         print(f"observation: {o}")
     evdir = VERIF / "evidence"
+    if os.environ.get("VERIF_NO_EVIDENCE"):
+        import tempfile as _tf
+
+        evdir = Path(_tf.mkdtemp(prefix="verif_ev_"))
     evdir.mkdir(exist_ok=True)
     replay_paths = []
     rdir = evdir / "replay"
@@ -189,6 +193,8 @@ def finish(rep: Report, level_text: str) -> int:
 
 
 def write_evidence(rep: Report, level_text: str, violations: int, hit: list[Finding], error: str | None = None) -> None:
+    if os.environ.get("VERIF_NO_EVIDENCE"):
+        return  # self-test runs against scratch copies must not overwrite the evidence of the real tree
     evdir = VERIF / "evidence"
     evdir.mkdir(exist_ok=True)
     obs = rep.obligations
@@ -239,13 +245,13 @@ def write_evidence(rep: Report, level_text: str, violations: int, hit: list[Find
     (evdir / f"{rep.prop}.json").write_text(json.dumps(ev, indent=1, sort_keys=True))
 
 
-def run_property(prop: str, fn: Callable[[Report, Any], str], tier: str, root: Path) -> int:
+def run_property(prop: str, fn: Callable[[Report, Any], str], tier: str, root: Path, ctx: Any = None) -> int:
     """fn(report, ctx) -> level text. Exceptions never masquerade as violations."""
     from .context import Ctx
 
     rep = Report(prop, tier, root)
     try:
-        ctx = Ctx(root)
+        ctx = ctx if ctx is not None else Ctx(root)
         text = fn(rep, ctx)
         return finish(rep, text)
     except AnalysisError as e:
